@@ -13,6 +13,7 @@ CONSTANTS
   Burst = 1
   StoreCap = 1
   EntryBurst = 0
+  BigQs = {}
   MaxOps = 3
   MaxPend = 1
   MaxAge = 1
@@ -24,8 +25,9 @@ CONSTANTS
   EchoCached = FALSE
   ReuseEvicted = FALSE
   SharedKey = FALSE
+  ChargeBeforeFit = FALSE
 SPECIFICATION Spec
 INVARIANTS TypeOK OneChargePerQuestion DropIsSilent ClientWithinBudget NoSharedBucket RememberedIsOwn ExemptNeverLimited
-  ReplyCookieIsOwn AnswerCarriesCookie BadCookieSound VerifiedIsFree HandoffOnlyInline
+  ReplyCookieIsOwn AnswerCarriesCookie BadCookieSound VerifiedIsFree HandoffOnlyInline SameOutcomeAcrossEntries
 PROPERTIES DropLeavesNoTrace EvictionOnlyResets BucketIsolation ExemptUntouched TokensNeverRefillWithoutTime
 CHECK_DEADLOCK FALSE
